@@ -23,6 +23,9 @@ CONSTANTS
   BugSkipInval = FALSE
   Dedicated = FALSE
   BugNoTrackingOff = FALSE
+  CacheChoices = {TRUE}
+  BugLossNilNeedsCache = FALSE
+  BugUnsubWrongSub = FALSE
 VIEW MCView
 INVARIANTS TypeOK OwnRepliesInOrder NoReplyFromFuture BatchContiguousOnWire NoSpuriousError AllReturnedAtQuiesce ArgvImmutable PubSubOrder ReceiveReturn ReceiveEndsByItself HookOrder HookClosedOnce InvalidationLog LossNilOnce TrackingOffOnRelease
 CHECK_DEADLOCK FALSE
